@@ -173,4 +173,57 @@ Proof.
   - rewrite sem_Ignored_S. cbn. rewrite Et. cbn. eauto.
 Qed.
 
+Lemma sem_Just_S n ts ctx p a :
+  sem (S n) (Just ts) ctx p a =
+    Some match just_sem K toks spn ts p a with
+         | (Some p1, a1) => (Some (VList (map VTok ts), p1, []), a1)
+         | (None, a1) => (None, a1)
+         end.
+Proof. reflexivity. Qed.
+
+Lemma sem_OrNot_S n x ctx p a :
+  sem (S n) (OrNot x) ctx p a =
+    match sem n x ctx p a with
+    | Some (Some (v, p1, e1), a1) => Some (Some (VOpt (Some v), p1, e1), a1)
+    | Some (None, a1) => Some (Some (VOpt None, p, []), a1)
+    | None => None
+    end.
+Proof. reflexivity. Qed.
+
+Lemma just1_sem t p a :
+  just_sem K toks spn [t] p a =
+    match nth_error toks p with
+    | Some u => if N.eqb t u then (Some (S p), a) else (None, ef K a p [pTok t] (Some u) (spn p (S p)))
+    | None => (None, ef K a p [pTok t] None (spn p p))
+    end.
+Proof. cbn [just_sem]. destruct (nth_error toks p) as [u|]; [destruct (N.eqb t u)|]; reflexivity. Qed.
+
+(* text::newline(): CR LF as one terminator, a lone CR, or one character of the newline class; nothing else.
+   The end position of a match, or failure: *)
+Definition newline_end (fnl : tok -> bool) (cr lf : tok) (p : nat) : option nat :=
+  match nth_error toks p with
+  | Some t =>
+      if N.eqb cr t then Some (match nth_error toks (S p) with Some u => if N.eqb lf u then S (S p) else S p | None => S p end)
+      else if fnl t then Some (S p) else None
+  | None => None
+  end.
+
+Theorem newline_lang n fnl cr lf ctx p a :
+  exists a',
+    match newline_end fnl cr lf p with
+    | Some p' => exists v, sem (S (S (S (S n)))) (text_newline (PFun fnl) cr lf) ctx p a = Some (Some (v, p', []), a')
+    | None => sem (S (S (S (S n)))) (text_newline (PFun fnl) cr lf) ctx p a = Some (None, a')
+    end.
+Proof.
+  unfold text_newline, newline_end. rewrite sem_Or_S, sem_Then_S, sem_Just_S, just1_sem.
+  destruct (nth_error toks p) as [t|] eqn:Et.
+  - destruct (N.eqb cr t) eqn:Ec.
+    + rewrite sem_OrNot_S, sem_Just_S, just1_sem.
+      destruct (nth_error toks (S p)) as [u|] eqn:Eu; [destruct (N.eqb lf u)|]; eexists; eexists; reflexivity.
+    + destruct (class_step (S n) fnl 26 ctx p (ef K a p [pTok cr] (Some t) (spn p (S p)))) as (a1 & Hc). rewrite Et in Hc.
+      rewrite Hc. destruct (fnl t); [eexists; eexists; reflexivity | eexists; reflexivity].
+  - destruct (class_step (S n) fnl 26 ctx p (ef K a p [pTok cr] None (spn p p))) as (a1 & Hc). rewrite Et in Hc.
+    rewrite Hc. eexists; reflexivity.
+Qed.
+
 End TextP.
